@@ -396,8 +396,16 @@ def layout_task(prop, name, srclines, compress, gap_bits=23, k_bits=34, max_path
                     res.oblig(False)
             else:
                 res.oblig(True if r == 'unsat' else None, 'unknown %s %s' % (tag, oname))
+    generated = name.startswith(('enum_', 'rand_'))
     if n_ok == 0:
-        res['vacuity'].append('%s: no accepting path' % tag)
+        # a generated slot sequence may be unassemblable by construction (odd data in front of a
+        # jump target): that is not a defect of the harness; curated templates must assemble
+        if generated:
+            res['notes'].append('%s: never accepted (skipped)' % tag)
+        else:
+            res['vacuity'].append('%s: no accepting path' % tag)
+    elif n_obs == 0 and generated:
+        res['notes'].append('%s: no obligation' % tag)
     elif n_obs == 0:
         res['vacuity'].append('%s: no obligation for %s in this template' % (tag, prop))
     res['functions'] = prof.names()
@@ -498,7 +506,10 @@ def product_task(prop, name, srclines, gap_bits=23, k_bits=34, max_paths=600):
         runs[compress] = lst
     off_ok = [a for a in runs[False] if a['kind'] == 'ok']
     if not off_ok:
-        res['vacuity'].append('%s: no accepting path without -c' % tag)
+        if name.startswith(('enum_', 'rand_')):
+            res['notes'].append('%s: never accepted without -c (skipped)' % tag)
+        else:
+            res['vacuity'].append('%s: no accepting path without -c' % tag)
     s = z3.Solver()
     s.set('timeout', 120000)
     import time as _t
@@ -510,7 +521,7 @@ def product_task(prop, name, srclines, gap_bits=23, k_bits=34, max_paths=600):
         res['solver_time'] += _t.time() - t0
         return r
 
-    regs = z3.Function('regsP', z3.BitVecSort(5), z3.BitVecSort(32))
+    regs = sem.RegReads('regsP')
     pcv = z3.BitVec('pcP', 32)
     n_pairs = 0
 
@@ -609,6 +620,7 @@ def product_task(prop, name, srclines, gap_bits=23, k_bits=34, max_paths=600):
                         ob = z3.BoolVal(False)
                     else:
                         parts = []
+                        regs = sem.RegReads('regsP')
                         for (na, va), (nb, vb) in zip(ia, ib):
                             e1 = sem.step(sem.word_of(va, na), regs, pcv, na)
                             e2 = sem.step(sem.word_of(vb, nb), regs, pcv, nb)
@@ -616,7 +628,7 @@ def product_task(prop, name, srclines, gap_bits=23, k_bits=34, max_paths=600):
                             if nb == 2:
                                 parts.append(sem.legal_c(vb.bv(16) if isinstance(vb, SymInt) else BV(vb, 16)))
                         ob = z3.And(*parts) if parts else z3.BoolVal(True)
-                    r = q(*joint, z3.Not(ob))
+                    r = q(*joint, regs.constraints(), z3.Not(ob))
                     if r == z3.sat:
                         report('line %d effect changed' % i, b, 'instruction line %d (%s) has a different effect with -c' % (i, l['src']),
                                lambda ro, rc, i=i: ro[0] == 'ok' and rc[0] == 'ok' and not _lines_same_effect(
